@@ -112,6 +112,7 @@ func generateOne(p *Program, key string, workDir string, harness bool) *FuncResu
 			return &FuncResult{Key: key, Undecided: "no such function"}
 		}
 		ex = newExec(p, fi)
+		ex.safetyOnly = sweepMode
 		res = ex.verifyFunc()
 	}
 	if res.Undecided != "" {
